@@ -411,7 +411,7 @@ func c02R6(p *core.Prog, r *core.Report) {
 	ex := core.NewExplorer(p, core.Hooks{
 		Track: func(x *core.X, a core.Atom) bool {
 			s := core.Plain(a.String())
-			return strings.Contains(s, self+".currentLock") || strings.Contains(s, self+".locks") || strings.HasSuffix(core.Plain(a.L), ".scaleQueue")
+			return strings.Contains(s, self+".currentLock") || strings.Contains(s, self+".locks") || strings.HasSuffix(core.Plain(a.L), ".scaleQueue") || strings.HasSuffix(core.Plain(a.L), ".locked") || strings.HasSuffix(core.Plain(a.R), ".locked")
 		},
 		// the index helper is explored inline, so that the rule sees the map deletion
 		// whether it is written in the helper or directly in RemoveLock
@@ -431,6 +431,18 @@ func c02R6(p *core.Prog, r *core.Report) {
 						k := core.Plain(x.Canon(c.Common().Args[1]).S)
 						if strings.HasSuffix(k, ".LockId") {
 							x.Set("idx:"+strings.TrimSuffix(k, ".LockId"), "1")
+							// the index is keyed by LockId: deleting the entry of a queue slot
+							// that is already released (skipped while looking for the next
+							// oldest holder) removes the entry of that LockId's *current* hold
+							hold := strings.TrimSuffix(strings.TrimSuffix(k, ".LockId"), ".command")
+							if hold != lk {
+								key := "server.(*LockManager).RemoveLock: index deletion for a popped slot"
+								if x.Passed("0 < "+hold+".locked") || x.Passed(hold+".locked != 0") {
+									r.Hold(rule, key, x.Pos(), "only for the live hold being promoted")
+								} else {
+									r.Violate(rule, key, x.Pos(), "the LockId index entry is deleted for a queue slot that was not tested live: if that LockId has re-acquired the key, its current hold disappears from the index (a re-lock is granted as a second hold, its unlock gets UNOWN_ERROR)", x.St.Trace)
+								}
+							}
 						}
 					}
 				}
